@@ -79,3 +79,26 @@ def gb_opt(gb):
 def gb_version(gb):
     v = gb_tlv(gb, 1)
     return None if v is None else v[0]
+
+
+def pfb_octet(fmt, nad, did, pni):
+    """protocol function byte of DEP_REQ/DEP_RES"""
+    return fmt * 16 + (8 if nad else 0) + (4 if did else 0) + pni
+
+
+def enc_dep(code1, code2, fmt, pni, did, nad, data):
+    """DEP_REQ (D4 06) / DEP_RES (D5 07): command, PFB, optional DID and NAD, payload"""
+    b = bytes([code1, code2, pfb_octet(fmt, nad is not None, did is not None, pni)])
+    if did is not None:
+        b = b + bytes([did])
+    if nad is not None:
+        b = b + bytes([nad])
+    return b + data
+
+
+def dep_frame(brty, pdu):
+    """transport frame: optional F0 start octet at 106 kbps, length octet (payload + 1), payload"""
+    f = bytes([len(pdu) + 1]) + pdu
+    if brty == '106A':
+        f = b'\xF0' + f
+    return f
